@@ -18,6 +18,7 @@ class ScriptIn:
         self.chars = []
         self.attempt = 0
         self.faults = set()
+        self.fault_kinds = []     # which OSError each failing attempt raises (bare, EBADF, EIO, EAGAIN, EINTR, ENXIO)
         self.consumed = 0
         self.on_read = None
 
@@ -26,7 +27,19 @@ class ScriptIn:
         if self.on_read:
             self.on_read(self)
         if self.attempt in self.faults:
-            raise OSError("injected")
+            import errno as E
+            kind = self.fault_kinds[self.attempt % len(self.fault_kinds)] if self.fault_kinds else 0
+            if kind == 0:
+                raise OSError("injected")
+            if kind == 1:
+                raise OSError(E.EBADF, "Bad file descriptor")
+            if kind == 2:
+                raise OSError(E.EIO, "Input/output error")
+            if kind == 3:
+                raise BlockingIOError(E.EAGAIN, "Resource temporarily unavailable")
+            if kind == 4:
+                raise InterruptedError(E.EINTR, "Interrupted system call")
+            raise OSError(E.ENXIO, "No such device or address")
         if not self.chars:
             return ""
         self.consumed += 1
@@ -95,6 +108,12 @@ class C18(PureCheck):
                     ex = ex.replace("R", "q")
                 yield {"op": "query", "extra": enc.enc_text(ex), "row": vals[k % 5], "col": vals[(k // 2) % 5], "csi8": csi8,
                        "trailing": enc.enc_text(trailings[k % 4]), "faults": [2] if n == 64 else [], "cb": 1}
+        # reads failing with every kind of OSError (bare, EBADF, EIO, EAGAIN, EINTR, ENXIO), alone and mixed
+        for kinds in ([1], [2], [3], [4], [5], [0, 1, 2], [1, 3, 4, 5, 2]):
+            for faults in ([1], [3], [2, 3, 9], [1, 2, 3, 4, 5, 6]):
+                k += 1
+                yield {"op": "query", "extra": enc.enc_text("x\n"), "row": 9, "col": 10, "csi8": k % 2,
+                       "trailing": enc.enc_text("R"), "faults": faults, "kinds": kinds, "cb": 1}
         # one read failing very many times in a row before it succeeds
         for nfail in (200, 1200, 5000):
             for first in (1, 5):
@@ -134,6 +153,7 @@ class C18(PureCheck):
                 ev["report"] = enc.enc_text(report)
                 ins.chars = list(enc.dec_text(inp["extra"]) + report + enc.dec_text(inp["trailing"]))
                 ins.faults = set(inp["faults"])
+                ins.fault_kinds = inp.get("kinds", [])
                 calls = []
                 win = CursorAwareWindow(out_stream=out, in_stream=ins,
                                         extra_bytes_callback=(lambda b: calls.append(list(b))) if inp["cb"] else None)
